@@ -39,6 +39,21 @@ BATCH_2D = [
     np.vstack([_LO2, _LO2 + 0.25, _LO2 + 4.0])[:9],
 ]
 
+# batches of two to four rows (the smallest legal sizes): the detect_batch=1 split of a reference into reference half
+# and proxy batch, bin counts of 1-2, bootstrap subsets of single rows
+SMALL_1D = [
+    np.array([[0.0], [1.0], [2.0]]),
+    np.array([[4.0], [5.0], [6.5]]),
+    np.array([[0.0], [3.0]]),
+    np.array([[0.5], [0.0], [1.0], [6.0]]),
+]
+SMALL_2D = [
+    np.array([[0.0, 1.0], [1.0, 0.0], [2.0, 2.5]]),
+    np.array([[4.0, 1.0], [5.0, 0.0], [6.5, 2.5]]),
+    np.array([[0.0, 0.0], [3.0, 7.0]]),
+    np.array([[0.5, 3.0], [0.0, 1.0], [1.0, 0.0], [6.0, 1.5]]),
+]
+
 PCA_POINTS = [
     [0.0, 0.0],
     [1.0, 2.0],
@@ -253,6 +268,13 @@ class CUSUMDriver(_UniDriver):
         return [
             {"target": None, "sd_hat": None, "burn_in": 2, "delta": 0.5, "threshold": 1, "_offset": 3.0e7},
             {"target": None, "sd_hat": None, "burn_in": 2, "delta": 0, "threshold": 2, "_scale": 1e-6, "_container": "DataFrame"},
+            # every direction with a burn-in of several samples, statistics given (they accumulate from the first sample
+            # of the first epoch) and estimated (they accumulate from the first sample of every later epoch)
+            {"target": 0, "sd_hat": 1, "burn_in": 3, "delta": 0, "threshold": 1, "direction": "positive"},
+            {"target": 0, "sd_hat": 1, "burn_in": 3, "delta": 0, "threshold": 1, "direction": "negative"},
+            {"target": 1, "sd_hat": 2, "burn_in": 2, "delta": 0.25, "threshold": 1},
+            {"target": None, "sd_hat": None, "burn_in": 2, "delta": 0, "threshold": 1, "direction": "positive"},
+            {"target": None, "sd_hat": None, "burn_in": 4, "delta": 0, "threshold": 1},
         ]
 
 
@@ -272,6 +294,9 @@ class PHDriver(_UniDriver):
         return [
             {"delta": 0.0, "threshold": 1, "burn_in": 2, "_offset": 1.0e6, "_container": "list"},
             {"delta": 0.0, "threshold": 0.5, "burn_in": 1, "direction": "negative", "_scale": 0.001, "_container": "DataFrame"},
+            {"delta": 0.0, "threshold": 1, "burn_in": 3, "direction": "positive"},
+            {"delta": 0.5, "threshold": 0.5, "burn_in": 2, "direction": "negative"},
+            {"delta": 0.0, "threshold": 0, "burn_in": 2},
         ]
 
     def extra_obs(self, det):
@@ -356,7 +381,10 @@ class _BatchDriver(Driver):
     initial_ref = 0  # menu index of the reference installed by make()
 
     def batch(self, sym, p):
-        b = self.menu[sym].copy()
+        menu = self.menu
+        if p.get("_menu") == "small":
+            menu = SMALL_2D if self.menu is BATCH_2D else SMALL_1D
+        b = menu[sym].copy()
         c = p.get("_container")
         if c == "DataFrame":
             return pd.DataFrame(b, columns=["a", "b", "c"][: b.shape[1]])
@@ -391,6 +419,13 @@ class _HDMDriver(_BatchDriver):
             out.append({"detect_batch": db, "statistic": "stdev", "significance": 0.5, "subsets": 3})
         out.append({"detect_batch": 2, "statistic": "tstat", "significance": 0.5, "subsets": 3})
         out.append({"detect_batch": 3, "statistic": "tstat", "significance": 0.3, "subsets": 3, "divergence": "KL" if self.name == "CDBD" else "H"})
+        return out
+
+    def family_configs(self, tier):
+        out = super().family_configs(tier)
+        for db in (1, 2):
+            out.append({"detect_batch": db, "statistic": "stdev", "significance": 0.5, "subsets": 2, "_menu": "small"})
+        out.append({"detect_batch": 1, "statistic": "tstat", "significance": 0.4, "subsets": 2, "_menu": "small", "_container": "DataFrame"})
         return out
 
     def extra_obs(self, det):
